@@ -2501,6 +2501,9 @@ type repoT struct {
 	mutCurID   uint64
 	mutSavedID uint64
 	mutMu      sync.RWMutex
+
+	// saveMu serializes saves of this repo (snapshot + write), so they reach the store in order.
+	saveMu sync.Mutex
 }
 
 // newRepo creates a new repository given a UUID, version, and RepoID,
@@ -2872,6 +2875,11 @@ func (r *repoT) saveToStore(db storage.OrderedKeyValueDB) error {
 	if err != nil {
 		return err
 	}
+	// Saves are serialized from the snapshot to the write: otherwise an older snapshot of the repo can
+	// reach the store after a newer one, and an acknowledged change is gone after the next start.
+	r.saveMu.Lock()
+	defer r.saveMu.Unlock()
+
 	// GobEncode takes the repo's read lock; RWMutex is not reentrant so don't hold it here.
 	serialization, err := dvid.Serialize(r, compression, dvid.CRC32)
 	if err != nil {
